@@ -276,6 +276,43 @@ def bool_atom(atom, pol):
     return atom, pol
 
 
+def sticky_flags(lig, llive, edges, result_ids=()):
+    """captured bool variables of a callback (root of lig) that carry an outcome across its invocations: every write is
+    `true` at a node that only the given outcome edges lead to, or the boolean result of one of the events result_ids"""
+    no_outcome = lig.reach([lig.entry], removed_edges=edges)
+    writes = {}
+    for n in lig.ev_nodes():
+        if n.id in llive and n.ev["e"] == "asg" and isinstance(strip_cast(n.ev.get("lhs")), dict) and strip_cast(n.ev["lhs"]).get("k") == "cap":
+            rhs = strip_cast(lig.resolve(n.ev.get("rhs"), n.frame)) if n.ev.get("rhs") is not None else None
+            r_ = lig.ev_of(rhs) if isinstance(rhs, dict) and rhs.get("k") == "e" else None
+            good = (r_ is not None and r_.id in result_ids) or (const_val(rhs) == 1 and n.ev.get("op") == "=" and n.id not in no_outcome)
+            writes.setdefault(strip_cast(n.ev["lhs"]).get("n"), []).append(good)
+    return set(k for k, v in writes.items() if all(v))
+
+
+def flag_edges(ig, flags, polarity, kinds=("cap",)):
+    """edges taken when one of the named flag variables has the given truth value"""
+    out = []
+    for n in ig.nodes:
+        for m, lab in n.succ:
+            if lab is None or lab.cond is None or lab.pol is None:
+                continue
+            atom, pol = bool_atom(ig.resolve(lab.cond, lab.frame), lab.pol)
+            atom = strip_cast(atom)
+            if isinstance(atom, dict) and atom.get("k") in kinds and atom.get("n") in flags and pol is polarity:
+                out.append((n.id, m.id))
+    return out
+
+
+def reach_across_invocations(lig, starts, removed_edges):
+    """nodes reachable from `starts` in this invocation of a callback and, when the invocation can end, in the next one
+    (an enumerator that calls its callback once per block) - never through removed_edges"""
+    r = set(lig.reach(starts, removed_edges=removed_edges))
+    if lig.exit.id in r:
+        r |= set(lig.reach([lig.entry], removed_edges=removed_edges))
+    return r
+
+
 def cmp_parts(atom):
     """(op, lhs, rhs) of a comparison atom, also through overloaded operators"""
     a = strip_cast(atom)
